@@ -30,6 +30,7 @@ def run(tier, seed):
         "the allocator is nondeterministic in the model; on the real code the harness cannot force an address reuse, so a stale-regex defect shows only when the allocator happens to reuse (it did on the pre-fix tree)",
         "add_filter / optimize are Blocker-level (Engine exposes no rule mutation); serialize/deserialize are Engine-level; removeparam rules are kept out of the serialized pool (open finding wireDropsRemoveparam, C08)",
     ]
+    vlib.scale_stage(v, wd, "C06")
     return v.finish("model_checking",
                     "every history of %d operations over {use/enable/disable tags, add_filter, optimize, discard all regexes, "
                     "serialize, deserialize, query battery} from a 7-rule engine with tagged regex rules, ending in a query; "
